@@ -1058,6 +1058,11 @@ func (s *Stream) appendOutFramesLocked(w *packetWriter, pnum packetNumber, pto b
 		if !added {
 			return false
 		}
+		if int64(len(b)) < size {
+			// The data was truncated to fit the packet,
+			// so the frame does not carry the FIN bit.
+			fin = false
+		}
 		s.out.copy(off, b)
 		end := off + int64(len(b))
 		if end > s.outmaxsent {
